@@ -9,17 +9,26 @@ N == Len(R)
 VARIABLES c, i
 vars == <<c, i>>
 If(cond, name) == IF cond THEN {name} ELSE {}
+RECURSIVE SumH(_, _)
+SumH(m, k) == IF k > Len(m.atoms) THEN 0 ELSE m.atoms[k].h + SumH(m, k + 1)
+TautomerMove(g, h) == /\ SumH(g, 1) = SumH(h, 1)
+                      /\ \A k \in 1..Len(g.atoms) : g.atoms[k].h # h.atoms[k].h => g.atoms[k].z = 7
+Moved(r) == SameSkeleton(r.k0, r.a) /\ ~SameHydrogens(r.k0, r.a) /\ TautomerMove(r.k0, r.a)
 Verdict(r) ==
   IF r.exc # "" THEN {"conversion-raised:" \o r.exc}
   ELSE
-  If(~SameSkeleton(r.k0, r.a) \/ ~SameHydrogens(r.k0, r.a), "aromatisation-changes-the-molecule")
-  \cup If(~LocalisedFormOf(r.k0, r.a), "aromatisation-touched-a-non-aromatic-bond")
+  \* thiele(fix_tautomers = TRUE), the default, deliberately moves a hydrogen between ring nitrogens of some hetero-arene
+  \* tautomers (known finding C05-tautomer-fix): recognised as "same skeleton, same total, only N-H counts differ"
+  If(~SameSkeleton(r.k0, r.a) \/ (~SameHydrogens(r.k0, r.a) /\ ~TautomerMove(r.k0, r.a)), "aromatisation-changes-the-molecule")
+  \cup If(SameSkeleton(r.k0, r.a) /\ ~SameHydrogens(r.k0, r.a) /\ TautomerMove(r.k0, r.a), "aromatisation-moves-a-hydrogen-between-ring-nitrogens")
+  \cup If(~Moved(r) /\ ~LocalisedFormOf(r.k0, r.a), "aromatisation-touched-a-non-aromatic-bond")
   \cup If(~LocalisedFormOf(r.k1, r.a) \/ ~SameHydrogens(r.k1, r.a), "kekulisation-changes-the-molecule")
   \cup If(~ValenceValid(r.k1), "kekule-form-with-valence-error")
   \cup If(r.a2.bonds # r.a.bonds \/ ~SameHydrogens(r.a2, r.a), "thiele-not-idempotent")
   \cup If(r.k2.bonds # r.k0.bonds \/ ~SameHydrogens(r.k2, r.k0), "kekule-not-idempotent")
   \cup If(r.ar.bonds # r.a.bonds, "aromatic-form-depends-on-numbering")
-  \cup If(\E q \in 1..Len(r.forms) : ~LocalisedFormOf(r.forms[q], r.a) \/ ~SameHydrogens(r.forms[q], r.a) \/ ~ValenceValid(r.forms[q]), "enumerated-form-is-not-a-kekule-form-of-the-molecule")
+  \cup (IF Unsaturated4Ring(r.a) THEN {} ELSE
+        If(\E q \in 1..Len(r.forms) : ~LocalisedFormOf(r.forms[q], r.a) \/ ~SameHydrogens(r.forms[q], r.a) \/ ~ValenceValid(r.forms[q]), "enumerated-form-is-not-a-kekule-form-of-the-molecule"))
   \cup If(\E p, q \in 1..Len(r.forms) : p # q /\ r.forms[p].bonds = r.forms[q].bonds, "enumerated-form-twice")
   \cup (IF Unsaturated4Ring(r.a) THEN {} ELSE If(\E q \in 1..Len(r.back) : r.back[q].bonds # r.a.bonds, "enumerated-form-aromatises-differently"))
 Init == c \in 0..(CH-1) /\ i = c + 1
